@@ -303,4 +303,25 @@ def s_big(rng):
     return s_wf(rng, 6, 9) if rng.random() < 0.7 else s_random(rng, 6, 8, 10)
 
 
-SAMPLERS = {"early": s_early, "random": s_random, "wf": s_wf, "big": s_big}
+def s_orphan(rng):
+    """some transitions point at a `State` object that is not declared in the class (index n): it counts as a way out
+    of its source, and it never makes a declared state reachable"""
+    d = s_wf(rng, 2, 5)
+    n = len(d.states)
+    events = []
+    for pos, specs in d.events:
+        new = []
+        for sp in specs:
+            if sp[0] == "e" and not sp[3] and rng.random() < 0.35:
+                new.append(("e", sp[1], n, False))          # redirected to the undeclared state
+                if rng.random() < 0.5:
+                    new.append(sp)                          # … next to the original
+            else:
+                new.append(sp)
+        events.append((pos, tuple(new)))
+    if not any(sp[0] == "e" and sp[2] == n for _, specs in events for sp in specs):
+        events.append((n, (("e", rng.randrange(n), n, False),)))
+    return decorate(rng, d.states, tuple(events), (), d.strict)._replace(mode="meta")
+
+
+SAMPLERS = {"early": s_early, "random": s_random, "wf": s_wf, "big": s_big, "orphan": s_orphan}
